@@ -21,6 +21,16 @@ var families = map[string]func(r *rand.Rand, i int) *Program{
 	"lifeseq":   genLifeSeq,
 	"order":     genOrder,
 	"multiq":    genMultiQ,
+	"tunewrap":  genTuneWrap,
+}
+
+// tunewrap: TunePool with values around the int → uint32 conversion boundary.
+func genTuneWrap(r *rand.Rand, i int) *Program {
+	g := &gen{r: r}
+	p := &Program{Kind: "plain", Conc: 1 + r.Intn(2), Queues: []string{"fifo"}}
+	vals := []int{1 << 32, 2 << 32, 1<<32 + 1, 1<<32 + 2, 1<<31 + 1, 3, 2}
+	p.Threads = [][]Op{{{Op: "tune", N: vals[r.Intn(len(vals))]}, {Op: "counts"}}, g.adds(1 + r.Intn(2))}
+	return p
 }
 
 // order: a paused worker is loaded by one producer, then resumed: the execution order must be the
